@@ -427,6 +427,7 @@ package parse
 //@   modifies *
 //@   keeps map[string]bool
 //@   keeps map[Node]bool
+//@   keeps compile.Compiler.typedefChain
 //@   ensures result0 == node_mod_by_prefix(self, pfx) && result1 == node_mod_by_prefix_err(self, pfx)
 //@ func (*node).YangPrefixToNamespace
 //@   requires n != nil && n.tree != nil && n.tree.Root != nil
